@@ -19,8 +19,98 @@ import (
 
 func overlaps(lo, hi, a, b int) bool { return a < hi && b > lo && lo >= 0 }
 
+// c13Huge: a member whose size does not fit 31 (or 32) bits, on a sparse device,
+// between two ordinary members.  Its metadata, a few of its bytes near the
+// start, the bit boundaries and the end, and the member AFTER it must all be
+// right: offsets and sizes are 64-bit quantities all the way.
+func c13Huge(r *rt.Run) {
+	t := r.T
+	size := []int64{1<<31 - 1, 1 << 31, 1<<31 + 1, 1<<32 - 1, 1 << 32, 1<<32 + 7, 5_000_000_001}[t.Draw(7, "c13.huge.size")]
+	fill := func(off int64) byte { return byte((off*2654435761)>>13) ^ byte(off) }
+	first := &arMember{Name: "first", RawName: "first", Mode: "100644", Data: []byte("first member\n")}
+	last := &arMember{Name: "after-huge", RawName: "after-huge/", Mode: "100644", Data: t.Sub("c13.huge.last").Bytes(1 + t.Draw(40, "c13.huge.lastlen"))}
+	head := renderAr([]*arMember{first})
+	hugeHdr := arHeader(&arMember{RawName: "huge.bin", Mode: "100644", Timestamp: 1_600_000_000}, fmt.Sprint(size))
+	hugeOff := int64(len(head))
+	dataOff := hugeOff + 60
+	lastOff := dataOff + size + size%2
+	tail := renderAr([]*arMember{last})[8:]
+	dev := simdisk.NewSparse(r, "sparse", lastOff+int64(len(tail)), fill)
+	dev.Segments[0] = head
+	dev.Segments[hugeOff] = []byte(hugeHdr)
+	if size%2 == 1 {
+		dev.Segments[dataOff+size] = []byte{'\n'}
+	}
+	dev.Segments[lastOff] = tail
+	r.Probe("member-larger-than-2GiB-on-a-sparse-device")
+	var names []string
+	var sizes []int64
+	var end error
+	var probeErr string
+	task := r.Solo("iterator", func() {
+		ar, err := deb.LoadAr(dev)
+		if err != nil {
+			end = err
+			return
+		}
+		for i := 0; i < 6; i++ {
+			e, err := ar.Next()
+			if err != nil {
+				end = err
+				return
+			}
+			names = append(names, e.Name)
+			sizes = append(sizes, e.Size)
+			if e.Name == "huge.bin" && e.Data != nil && probeErr == "" {
+				if e.Data.Size() != size {
+					probeErr = fmt.Sprintf("Data.Size()=%d", e.Data.Size())
+				}
+				for _, at := range []int64{0, 1, 1<<31 - 2, 1<<31 - 1, 1 << 31, 1<<32 - 1, 1 << 32, size - 2, size - 1} {
+					if at < 0 || at >= size {
+						continue
+					}
+					var b [1]byte
+					if n, err := e.Data.ReadAt(b[:], at); n != 1 || (err != nil && err != io.EOF) || b[0] != fill(dataOff+at) {
+						probeErr = fmt.Sprintf("ReadAt(1 byte at %d) = (%d, %v) byte %#x, the device holds %#x there", at, n, err, b[0], fill(dataOff+at))
+						break
+					}
+				}
+				if p, err := e.Data.Seek(-1, io.SeekEnd); err != nil || p != size-1 {
+					probeErr = fmt.Sprintf("Seek(-1, end) = (%d, %v), want %d", p, err, size-1)
+				}
+			}
+			if e.Name == "after-huge" && e.Data != nil {
+				if b, err := io.ReadAll(e.Data); err != nil || !bytes.Equal(b, last.Data) {
+					probeErr = fmt.Sprintf("the member after the huge one reads as %d bytes (err=%v), want %d", len(b), err, len(last.Data))
+				}
+			}
+		}
+	})
+	if task.Panic != nil {
+		r.Violate("C13/panic", "huge-member", "panic: %v\n%s", task.Panic, trimStack(task.PanicStack))
+		return
+	}
+	if task.Budget {
+		r.Violate("C13/no-termination", "huge-member", "step budget exhausted")
+		return
+	}
+	want := fmt.Sprint([]string{"first", "huge.bin", "after-huge"}, []int64{int64(len(first.Data)), size, int64(len(last.Data))})
+	if got := fmt.Sprint(names, sizes); got != want || end != io.EOF {
+		r.Violate("C13/metadata-mismatch", "huge-member", "archive with a %d-byte member: Next returned %s and then %v; it holds %s", size, got, end, want)
+		return
+	}
+	if probeErr != "" {
+		r.Violate("C13/wrong-bytes", "huge-member", "archive with a %d-byte member: %s", size, probeErr)
+	}
+}
+
 func runC13(r *rt.Run, tier string) {
 	t := r.T
+	if t.Bool(1, 40, "c13.part-huge") {
+		r.Stats["part.huge-member"]++
+		c13Huge(r)
+		return
+	}
 	maxM := 5
 	if tier == "thorough" {
 		maxM = 8
@@ -403,5 +493,5 @@ func init() {
 		},
 		Assumptions: []string{"per-operation equality with the sequential member-list model is the complete check because iterator and member readers are independent objects over one immutable ReaderAt (no linearizability search needed)"},
 	})
-	propProbes["C13"] = []string{"archive-is-a-window-into-a-larger-device", "seek-positions-of-all-readers-compared", "zero-length-member", "odd-member-followed-by-another", "16-byte-name", "third-member-after-an-odd-one", "eof-eager-full-read-at-end-of-file", "reader-op-overlapped-a-Next", "odd-last-member-without-pad", "blank-numeric-column", "data-looks-like-header", "name-with-trailing-slash", "name-with-interior-slash", "zero-padded-numeric-columns", "Next-retried-after-transient-error", "reader-with-sequential-state", "two-archives-iterated-concurrently"}
+	propProbes["C13"] = []string{"member-larger-than-2GiB-on-a-sparse-device", "archive-is-a-window-into-a-larger-device", "seek-positions-of-all-readers-compared", "zero-length-member", "odd-member-followed-by-another", "16-byte-name", "third-member-after-an-odd-one", "eof-eager-full-read-at-end-of-file", "reader-op-overlapped-a-Next", "odd-last-member-without-pad", "blank-numeric-column", "data-looks-like-header", "name-with-trailing-slash", "name-with-interior-slash", "zero-padded-numeric-columns", "Next-retried-after-transient-error", "reader-with-sequential-state", "two-archives-iterated-concurrently"}
 }
